@@ -105,7 +105,7 @@ def check_case(wi, world, variant, mode, acc):
         judged_q = [qs[i][0] for i in arg]
         obs = driver.run_world(w, mode)
     elif kind == 'ref-order':
-        w = dict(refs=[refs[i] for i in arg], queries=qs)
+        w = dict(refs=[refs[i] for i in arg] + list(refs[3:]), queries=qs)      # a 4th (short) reference keeps its place at the end
         obs = driver.run_world(w, mode)
         tie_guard = True
     elif kind == 'qId':
@@ -117,9 +117,10 @@ def check_case(wi, world, variant, mode, acc):
         expect = per_query(phys)
         judged_q = None
     elif kind == 'rId':
-        ids = [refs[i][0] for i in arg]
+        keep = [refs[i] for i in arg] + list(refs[3:])
+        ids = [r[0] for r in keep]
         obs = driver.run_world(world, mode, extra=['-rId'] + [str(i) for i in ids])
-        phys = driver.run_world(dict(refs=[refs[i] for i in arg], queries=qs), mode)
+        phys = driver.run_world(dict(refs=keep, queries=qs), mode)
         if phys.error:
             found.append(('restricted-run-aborted', phys.error, 'run', {}))
         expect = per_query(phys)
@@ -178,6 +179,17 @@ def base_worlds(tier, seed):
     if tier != 'quick' or seed:
         sets = sets + e2e.query_sets(1 if tier == 'quick' else 8, 'c10-seed-%d' % seed, size=(4, 4))[2]
     ws = [e2e.set_world(refs, pool, s, nrefs=3, short_ref=i % 2 == 1) for i, s in enumerate(sets)]
+    for w in ws:
+        if len(w['refs']) == 4:
+            # a short molecule that belongs to the short reference (id 1), next to molecules longer than that reference
+            short = w['refs'][3]
+            w['queries'][3] = e2e.worlds.as_map(w['queries'][3][0], e2e.worlds.window_query(short, 1, 8, False)[0][2], trailing=700.0)
+            w['desc'][3] = 'plain window of the short reference'
+    # a world with a duplicated contig (same labels under two ids): exact score ties between references, so anything that lets the
+    # physical order of the file decide shows when rows are rearranged
+    dup = (40, refs[0][1], list(refs[0][2]))
+    ws.append(dict(refs=[refs[1], dup, refs[0]], queries=[e2e.worlds.as_map(e2e.QIDS[j], pool[i][1]) for j, i in enumerate((0, 1, 6, 2))],
+                   desc=['duplicated contig world'] + [pool[i][0] for i in (0, 1, 6, 2)]))
     # one base world holds two molecules of the same locus (+ one of another locus + an unalignable one): 4 queries, 3 references
     sl = e2e.same_locus_worlds()[seed % 4]
     extra = e2e.worlds.as_map(17, pool[1][1])
